@@ -91,6 +91,8 @@ def _order_memo_hazards(tree: ast.AST, imports=None):
 
 
 def run(repo: Repo, rep: Report, tier: str) -> None:
+    from sa.report import guarded as _guarded
+
     conv = repo.module("core.cattrs_converter")
     # ---------------------------------------------------------------- R14.6 no order-blind memo of a union's members
     hz, _ = _order_memo_hazards(ast.parse(_R146_EXAMPLE))
@@ -321,12 +323,12 @@ def run(repo: Repo, rep: Report, tier: str) -> None:
                           "Union variants are not rendered in spec order with order-preserving de-duplication: first-success decoding then depends on hashing/sorting", fn.loc())
 
     _mapping_entries_rule(repo, rep)
-    rule_underlying_only_for_primitives(repo, rep, "R14.7")
-    rule_mapping_fallback(repo, rep, "R14.8")
-    rule_declared_order(repo, rep, "R14.9")
-    rule_mapping_parsed_whole(repo, rep, "R14.10")
-    rule_metadata_from_the_given_type(repo, rep, "R14.11")
-    rule_implicit_mapping(repo, rep, "R14.14")
+    _guarded(rep, rule_underlying_only_for_primitives, repo, rep, "R14.7")
+    _guarded(rep, rule_mapping_fallback, repo, rep, "R14.8")
+    _guarded(rep, rule_declared_order, repo, rep, "R14.9")
+    _guarded(rep, rule_mapping_parsed_whole, repo, rep, "R14.10")
+    _guarded(rep, rule_metadata_from_the_given_type, repo, rep, "R14.11")
+    _guarded(rep, rule_implicit_mapping, repo, rep, "R14.14")
     from rules import _converter as _cv1413
 
     _cv1413.rule_field_types_resolved(repo, rep, "R14.13")
